@@ -99,7 +99,7 @@ func (x *c07World) Apply(op bfs.Op) (fs []bfs.Finding) {
 	uaBefore := w.ua.Ring.Canon(nameOf)
 	r := w.exec(op)
 	if r.panic != "" {
-		add("panic:"+ev.PanicSite(r.panic), r.panic)
+		add(panicKey(r.panic), r.panic)
 		return
 	}
 	now := w.clock
